@@ -23,6 +23,9 @@ pub fn by_id(id: &str) -> Option<Box<dyn Check>> {
 /// Fill the bookkeeping fields of a run result from the run's I/O context
 pub fn finish(mut out: RunOut, io: &Io, wt: &Tape, struct_digest: u64, cfg: iocfg::Cfg, extra: u64, nonempty: bool) -> RunOut {
     let r = io.borrow();
+    if let Some(ps) = r.path_style {
+        out.probes.hit(&format!("path_args:{}", ps));
+    }
     out.digest = r.log.finish();
     out.stats = r.stats.clone();
     out.steps = r.steps;
